@@ -14,7 +14,9 @@ import time
 
 VERIF = os.path.dirname(os.path.dirname(os.path.dirname(os.path.abspath(__file__))))
 REPO = os.environ.get("VERIF_REPO", "/repo")
-BUILD = os.path.join(VERIF, ".build")
+# VERIF_BUILD: separate build directory (used with VERIF_REPO for mutated source trees, so that their artefacts
+# never mix with the ones of /repo)
+BUILD = os.environ.get("VERIF_BUILD") or os.path.join(VERIF, ".build")
 EVIDENCE = os.path.join(VERIF, "evidence")
 REPLAYS = os.path.join(EVIDENCE, "replays")
 KNOWN_FILE = os.path.join(VERIF, "known_findings.json")
